@@ -150,6 +150,7 @@ func dumpFunc(fn *ssa.Function) jFunc {
 			case *ssa.UnOp:
 				ji.Op = "UnOp"
 				ji.Attrs["tok"] = in.Op.String()
+				ji.Attrs["commaok"] = in.CommaOk
 				add(in.X)
 			case *ssa.BinOp:
 				ji.Op = "BinOp"
@@ -244,8 +245,21 @@ func dumpFunc(fn *ssa.Function) jFunc {
 				add(in.Chan, in.X)
 			case *ssa.Select:
 				ji.Op = "Select"
+				ji.Attrs["blocking"] = in.Blocking
+				var dirs []string
+				for _, st := range in.States {
+					if st.Dir == types.SendOnly {
+						dirs = append(dirs, "send")
+						add(st.Chan, st.Send)
+					} else {
+						dirs = append(dirs, "recv")
+						add(st.Chan, nil)
+					}
+				}
+				ji.Attrs["dirs"] = dirs
 			case *ssa.MakeChan:
 				ji.Op = "MakeChan"
+				add(in.Size)
 			default:
 				ji.Op = fmt.Sprintf("%T", in)
 			}
